@@ -226,9 +226,9 @@ class RegExp:
 
         if result:
             if self._global:
-                end_cp = (
-                    result.index + len(result[0]) if result[0] else result.index + 1
-                )
+                # lastIndex = end of the match, also for an empty match (the
+                # callers that iterate step over empty matches themselves)
+                end_cp = result.index + len(result[0] or "")
                 if self._unicode:
                     self.lastIndex = _codepoint_to_utf16_index(string, end_cp)
                 else:
